@@ -62,6 +62,7 @@ def score_table(final_state, data_rows, W):
 def run(ctx):
     from fast_ticc import data_preparation as dp
     ctx.proof_layer(allowed_axioms=R_AX, coq_deps=["Corr/RunMainLoop", "Corr/RunViterbi"])
+    core.note_drift(ctx, ANCHORS)
     cov = core.LineCoverage()
     with cov:
         runs = e2e.cached_runs(ctx, e2e.standard_grid(ctx.seed, ctx.thorough), "std") + e2e.cached_runs(ctx, c09_cfgs(ctx.seed, ctx.thorough), "c09")
